@@ -34,7 +34,7 @@ Fixpoint spec_run (da db : list value) (steps : list (op * obs * obs)) : bool :=
             if o_ok oa then (if who then (da, db ++ b) else (da ++ b, db)) else (da, db)
         | OpLocal who _ v =>
             if o_ok oa then (if who then (da, db ++ [v]) else (da ++ [v], db)) else (da, db)
-        | OpSync _ => (da ++ db, da ++ db)
+        | OpSync _ | OpSyncStream _ _ => (da ++ db, da ++ db)
         end in
       spec_C12 da' oa && spec_C12 db' ob && spec_run da' db' r
   end.
